@@ -28,6 +28,7 @@ type Net struct {
 	label   string
 	history []string // op lines of this scenario (the replay)
 	mon     *Monitors
+	lastAdvOp string
 }
 
 type Flight struct {
@@ -72,6 +73,9 @@ func NewNet(c *Ctx, o NetOpts, label string) *Net {
 	}
 	net.mon = NewMonitors(net)
 	net.adv = NewAdversary(net)
+	for _, n := range net.order {
+		n.Verdict = func(b *FakeBlock) bool { return !net.adv.BadBlocks[b.Id] }
+	}
 	return net
 }
 
